@@ -148,6 +148,17 @@ Print Assumptions C01_fnc1_ax_roundtrip.
    legal fill; a run ends the symbol without Unlatch exactly when nothing or one ASCII-encoded codeword follows and the symbol
    is then full (Proofs/EncAC.v).  With the crate's optimiser this covers the mode sets {C40}, {ASCII, C40}, {Text},
    {ASCII, Text}, with a Macro 05/06 envelope or an FNC1 start as well *)
+Theorem C01_ac_plan_roundtrip : forall (text : bool) optimize_fn data symbols modes cw s,
+  (forall p, optimize_fn data 0 symbols modes = Ok (Some p) -> Forall (fun e => snd e = Ascii \/ snd e = (if text then Text else C40)) p) ->
+  bytes_ok data = true ->
+  encode_data_internal optimize_fn data symbols None modes false false = Ok (cw, s) ->
+  decode_data cw = Ok data.
+Proof. intros t o d sy m cw s HP OK H. exact (proj2 (ac_plan_roundtrip t o sy m d HP cw s OK H)). Qed.
+Print Assumptions C01_ac_plan_roundtrip.
+
+(* the plan-level theorems (C01_ab_plan_roundtrip, C01_ax_plan_roundtrip, C01_ac_plan_roundtrip) speak about ANY planner and ANY mode set: whenever the
+   plan chosen for an input uses, beside ASCII, only Base256, only X12, only C40 or only Text -- which is what the optimiser returns for most inputs of one
+   kind under the default configuration too --, the round trip of that input is an instance of a theorem *)
 Theorem C01_ac_modes_roundtrip : forall (text : bool) sorter data symbols modes cw s,
   (forall k l l', sorter symbols k l = Ok l' -> incl l' l) ->
   (forall mo, enabled modes mo = true -> mo = Ascii \/ mo = (if text then Text else C40)) -> bytes_ok data = true ->
